@@ -66,6 +66,34 @@ def run_worker(args: list[str], env: dict, timeout: float) -> list[dict]:
     return recs
 
 
+def locate_crash(prop, seed, tier, start, count, env, timeout):
+    """Bisect a block whose worker process died: returns (run id, stderr tail) of a run that kills a fresh interpreter, or None
+    if the failure does not reproduce (then it is a harness problem, reported as such)."""
+    def dies(s, c):
+        try:
+            recs = run_worker(["run", prop, str(seed), tier, str(s), str(c), "0"], env, timeout)
+            if any("harness_error" in r for r in recs):
+                return None  # an ordinary harness exception, not a dead interpreter
+            return False
+        except HarnessError as e:
+            return str(e)
+    first = dies(start, count)
+    if not first:
+        return None
+    tail = first
+    while count > 1:
+        half = count // 2
+        d = dies(start, half)
+        if d:
+            count, tail = half, d
+        elif d is None:
+            return None
+        else:
+            start, count = start + half, count - half
+    d = dies(start, 1)
+    return (start, d) if d else None
+
+
 # ----------------------------------------------------------------------------------------------- findings
 
 
@@ -186,8 +214,23 @@ def check(prop: str, tier: str, seed: int, runs: int | None, budget_s: float | N
         start = b * block
         count = min(block, cfg["runs"] - start)
         benv = mod.block_env(b, extra_env) if hasattr(mod, "block_env") else extra_env
-        recs = run_worker(["run", prop, str(seed), tier, str(start), str(count), str(sample_every)],
-                          worker_env(hs, benv), per_block_timeout)
+        try:
+            recs = run_worker(["run", prop, str(seed), tier, str(start), str(count), str(sample_every)],
+                              worker_env(hs, benv), per_block_timeout)
+        except HarnessError as e:
+            # the interpreter itself died (abort, segfault, hard hang) - find the run that kills it and report it as a violation
+            crash = locate_crash(prop, seed, tier, start, count, worker_env(hs, benv), per_block_timeout)
+            if crash is None:
+                raise
+            r, tail = crash
+            os.environ.setdefault("VERIF_WORLD", benv.get("VERIF_WORLD", "rust"))
+            case = mod.generate(core.run_rng(seed, key, r), tier)
+            if isinstance(case, dict) and "world" in case:
+                case["world"] = benv.get("VERIF_WORLD", case["world"])
+            v = {"prop": prop, "class": "process_crash", "detail": f"the interpreter died or hung while executing this case: {tail[-300:]}",
+                 "key": {"class": "process_crash"}}
+            recs = [{"r": r, "digest": "crash", "nt": False, "faults": {}, "probes": {}, "steps": 0, "simt": 0.0, "viol": [v], "case": case}]
+            return hs, recs
         return hs, recs
 
     with cf.ThreadPoolExecutor(max_workers=workers) as ex:
@@ -349,7 +392,11 @@ def report_violation(prop: str, seed: int, it: dict, extra_env: dict, findings: 
     # replay twice, fresh interpreters
     digs = []
     for _ in range(2):
-        recs = exec_case_file(prop, path, hs, extra_env)
+        try:
+            recs = exec_case_file(prop, path, hs, extra_env)
+        except HarnessError:
+            digs.append((viol["class"] == "process_crash", "crash"))  # replaying a crash case kills the replay worker too
+            continue
         ok = any(core.canon(v["key"]) == core.canon(viol["key"]) and v["prop"] == prop for r in recs for v in r.get("viol", []))
         digs.append((ok, recs[0].get("digest")))
     rep["replay_verified"] = digs[0][0] and digs[1][0] and digs[0][1] == digs[1][1]
@@ -370,7 +417,14 @@ def replay(path: str) -> int:
     mod = core.prop_module(prop)
     os.makedirs(SCRATCH, exist_ok=True)
     extra_env = mod.prepare(SCRATCH) if hasattr(mod, "prepare") else {}
-    recs = exec_case_file(prop, path, rep.get("hash_seed", 0), extra_env)
+    try:
+        recs = exec_case_file(prop, path, rep.get("hash_seed", 0), extra_env)
+    except HarnessError as e:
+        if (rep.get("expect") or {}).get("class") == "process_crash":
+            log(f"VIOLATION property={prop} replay={path}")
+            log(f"  class=process_crash detail=the replay worker died again: {str(e)[-200:]}")
+            return 1
+        raise
     rc = 0
     for r in recs:
         if "harness_error" in r:
